@@ -91,7 +91,7 @@ pub fn op_strategy(with_delete_all: bool) -> BoxedStrategy<Op> {
         2 => (-20i16..20, 0i16..8).prop_map(|(lo, w)| Op::DelRange(lo, lo + w)),
         2 => (0..NUM_GROUPS, 0..NUM_WORDS).prop_map(|(g, w)| Op::DelBool(g, w)),
         4 => prop::collection::vec(batch_item, 0..6).prop_map(Op::Batch),
-        if with_delete_all { 1 } else { 0 } => Just(Op::DeleteAll),
+        1 => if with_delete_all { Just(Op::DeleteAll) } else { Just(Op::Gc) },
         9 => Just(Op::Commit),
         2 => Just(Op::PrepareCommit),
         2 => Just(Op::PrepareAbort),
